@@ -53,6 +53,31 @@ func constStringOf(v ssa.Value) (string, bool) {
 	return "", false
 }
 
+// strArg / boolArg: the string / bool an argument denotes, as a constant or as evaluated by the engine
+// (a parameter of an inlined helper, the element of a literal list being ranged over, ...).
+func strArg(cx *Ctx, v ssa.Value, f *Fact) (string, bool) {
+	if s, ok := constStringOf(v); ok {
+		return s, true
+	}
+	if a := cx.Eval(v, f); a.K == avStr {
+		return a.S, true
+	}
+	return "", false
+}
+
+func boolArg(cx *Ctx, v ssa.Value, f *Fact) (val, known bool) {
+	if c, ok := v.(*ssa.Const); ok && c.Value != nil && c.Value.Kind() == constant.Bool {
+		return constant.BoolVal(c.Value), true
+	}
+	switch cx.Eval(v, f).K {
+	case avTrue:
+		return true, true
+	case avFalse:
+		return false, true
+	}
+	return false, false
+}
+
 // joinLast returns the constant last element of a filepath.Join(...) call, "" if not constant.
 func joinLast(v ssa.Value) (isJoin bool, last string, lastConst bool) {
 	c, ok := v.(*ssa.Call)
@@ -362,21 +387,21 @@ func runORD08(p *Prog, r *RuleRun) {
 		return
 	}
 	// the wrapper type is the one whose Sync is the ORD-05 routine
-	sizeParam := ssa.Value(nil)
-	for _, prm := range root.Params {
+	params := make([]AV, len(root.Params))
+	for i, prm := range root.Params {
 		if b, ok := prm.Type().Underlying().(*types.Basic); ok && b.Kind() == types.Uint64 {
-			sizeParam = prm
+			params[i] = AV{Tag: "~size"}
 		}
 	}
 	nOpen := 0
 	spec := &OrdSpec{Name: "fs.FS.Create", Call: fsCall,
 		OnBranch: func(cx *Ctx, ifi *ssa.If, truth bool, f *Fact) {
 			bo, ok := ifi.Cond.(*ssa.BinOp)
-			if !ok || cx.Fr.Parent != nil {
+			if !ok {
 				return
 			}
 			c, isC := bo.Y.(*ssa.Const)
-			if bo.X != sizeParam || !isC || c.Int64() != 0 {
+			if cx.Eval(bo.X, f).Tag != "~size" || !isC || c.Int64() != 0 {
 				return
 			}
 			pos := (bo.Op == token.GTR || bo.Op == token.NEQ) == truth
@@ -451,7 +476,7 @@ func runORD08(p *Prog, r *RuleRun) {
 			r.OK(key, pos, "success: OpenFile:ok, preallocated when size>0, returns the dir-syncing *fs.File wrapper")
 		}}
 	eng := newOrdEngine(p, spec)
-	if len(eng.RunRoot(root, nil)) == 0 {
+	if len(eng.RunRootWith(root, params, nil, nil)) == 0 {
 		r.Unknown("root", p.Position(root.Pos()), "no exit reached")
 	}
 	if nOpen == 0 {
@@ -516,13 +541,13 @@ func runORD09(p *Prog, r *RuleRun) {
 				}
 			case "bbolt.Tx.CreateBucket":
 				if phase == "ok" {
-					if s, ok := constStringOf(args[1]); ok {
+					if s, ok := strArg(cx, args[1], f); ok {
 						f.Add("CreateBucket(" + s + "):ok")
 					}
 				}
 			case "bbolt.DB.Begin":
 				if phase == "ok" {
-					if c, ok := args[1].(*ssa.Const); ok && c.Value != nil && constant.BoolVal(c.Value) {
+					if w, known := boolArg(cx, args[1], f); known && w {
 						f.Add("Begin(rw):ok")
 					}
 				}
@@ -616,7 +641,7 @@ func runORD10(p *Prog, r *RuleRun) {
 			},
 			Value: func(cx *Ctx, v ssa.Value, f *Fact) (AV, bool) {
 				if c, ok := v.(*ssa.Call); ok && eventName(c) == "bbolt.Tx.Bucket" {
-					if s, ok := constStringOf(c.Call.Args[1]); ok {
+					if s, ok := strArg(cx, c.Call.Args[1], f); ok {
 						return AV{Tag: "bucket:" + s}, true
 					}
 					return AV{Tag: "bucket:?"}, true
@@ -632,7 +657,7 @@ func runORD10(p *Prog, r *RuleRun) {
 				switch ev {
 				case "bbolt.DB.Begin":
 					if phase == "ok" {
-						if c, ok := args[1].(*ssa.Const); ok && c.Value != nil && constant.BoolVal(c.Value) {
+						if w, known := boolArg(cx, args[1], f); known && w {
 							f.Add("Begin(rw):ok")
 						} else {
 							f.Add("Begin(ro):ok")
@@ -645,7 +670,7 @@ func runORD10(p *Prog, r *RuleRun) {
 						r.Check(tag == "bucket:"+want, key, posOf(p, ins), rs.method+" operates on bucket "+want,
 							fmt.Sprintf("%s must use only bucket %q but this %s is on %q: stable store and log metadata are no longer isolated", rs.method, want, ev, tag))
 						if rs.method == "CommitState" && ev == "bbolt.Bucket.Put" {
-							k, ok := constStringOf(args[1])
+							k, ok := strArg(cx, args[1], f)
 							r.Check(ok && k == consts["MetaKey"], cx.Key(ins, "Put:key"), posOf(p, ins), "state stored under MetaKey",
 								fmt.Sprintf("CommitState stores the state under key %q, want MetaKey %q", k, consts["MetaKey"]))
 						}
